@@ -227,6 +227,30 @@ func c03LeafRefs(c *eng.Ctx, r *eng.Report) {
 		}
 	}
 	if leaf == nil {
+		// the callback written as a method and passed as a method value
+		for _, s := range eng.Sites(commit) {
+			if !(strings.HasSuffix(s.Name(), "Trie.Commit") || strings.HasSuffix(s.Name(), "Trie).Commit")) {
+				continue
+			}
+			for _, a := range s.Common().Args {
+				if ct, isCT := a.(*ssa.ChangeType); isCT {
+					a = ct.X
+				}
+				if mc, ok := a.(*ssa.MakeClosure); ok {
+					bound := mc.Fn.(*ssa.Function)
+					for _, s2 := range eng.Sites(bound) {
+						if t := s2.Common().StaticCallee(); t != nil && len(callsNamed(t, "(*storage/trie.NodeDatabase).Reference")) > 0 {
+							leaf = t
+						}
+					}
+					if len(callsNamed(bound, "(*storage/trie.NodeDatabase).Reference")) > 0 {
+						leaf = bound
+					}
+				}
+			}
+		}
+	}
+	if leaf == nil {
 		r.Fail(rule, "Commit:leaf-callback", c.Pos(commit.Pos()), "no leaf callback calling TrieDB().Reference found in AccountDB.Commit")
 		return
 	}
